@@ -45,7 +45,10 @@ ASSUMPTIONS = [
     'coredata.save returns the coredata.dat path after copying the previous file to <path>.prev',
     'the persistent writers of setup/configure are dump_coredata/coredata.save, build.save, write_cmd_line_file, update_cmd_line_file',
 ]
-TECHNIQUE = 'decision tables + path-sensitive symbolic store over enumerated paths + CFG dominance/handler reachability + origin flow'
+TECHNIQUE = ('decision tables by path enumeration over canonical atoms + world enumeration, row effects compared symbolically '
+             '(normalised statement shape, after copy propagation by reaching definitions along the path); typestate of '
+             'self.options[key] (old/new declaration installed) over enumerated paths; CFG dominance/reachability and try/handler '
+             'nesting; def-use origin flow; no repository code is evaluated on input values')
 
 
 # ---------------------------------------------------------------------------
@@ -429,7 +432,9 @@ def r1(ctx: RuleCtx) -> None:
 
 
 # ---------------------------------------------------------------------------
-# C08.R2a  update_project_options: symbolic store along every path of the first loop
+# C08.R2a  update_project_options: typestate of self.options[KEY] (which declaration object is installed: OLD/NEW)
+# along every enumerated path of the first loop; locals are resolved to OLD/NEW by reaching definitions (aliases), the
+# conditions are canonical atoms, the effects are classified by statement shape.  Nothing is evaluated on input values.
 
 class _StoredRead(ast.NodeTransformer):
     def __init__(self, stored: str):
